@@ -8,7 +8,8 @@ from . import R
 M = "netconan.sensitive_item_removal:"
 
 R.objtype("AsNum", pyclass=M + "AsNumberAnonymizer",
-          fields={"salt": STR, "as_num_regex": Opq("Pattern"), "as_num_map": MapT(STR, STR)})
+          fields={"salt": STR, "as_num_regex": Opq("Pattern"), "as_num_map": MapT(STR, STR)},
+          ghost={"numbers": Ty("list", STR)})      # ghost: the listed AS numbers
 AS = ObjT("AsNum")
 
 
@@ -32,10 +33,48 @@ R.specfn("BlockBegin", [("n", INT)], INT, "0 if n <= 64511 else (64512 if n <= 6
 R.specfn("BlockSize", [("n", INT)], INT, "64512 if n <= 64511 else (1024 if n <= 65535 else (4199934464 if n <= 4199999999 else 94967296))")
 
 R.contract(M + "AsNumberAnonymizer._generate_as_number_replacement",
-           types={"self": AS, "as_number": STR}, returns=STR, pure=True,
+           types={"self": AS, "as_number": STR}, returns=STR, pure=True, reads=["self.salt"],
            requires=["IsNumeral(as_number)"],
            raises={"ValueError": "int(as_number) > 4294967295"},
            ensures=["IsNumeral(result)",
                     "Block(int(result)) == Block(int(as_number))",
                     # keyed: a function of salt and number only
                     "int(result) == Md5Int(self.salt + as_number) % BlockSize(int(as_number)) + BlockBegin(int(as_number))"])
+
+LSTR = Ty("list", STR)
+# every listed number has a replacement in the map (so a match of the regex can always be looked up)
+R.pred("AsOK", [("o", AS)], [
+    ("total", "all(n in o.as_num_map for n in o.numbers)"),
+    ("keyed", "all(o.as_num_map[n] == Repl(o.salt, n) for n in o.numbers)"),
+])
+
+
+def _sp_repl(eng, args, kw, n):
+    """Repl(salt, number): the result of _generate_as_number_replacement as the pure function of (number, salt)"""
+    f = lib.uf("pure_AsNumberAnonymizer._generate_as_number_replacement", lib.S, lib.S, lib.S)
+    return P(STR, f(eng.term(args[1], STR), eng.term(args[0], STR)))
+
+
+SPEC_BUILTINS["Repl"] = _sp_repl
+
+R.contract(M + "AsNumberAnonymizer.__init__",
+           types={"self": AS, "as_numbers": LSTR, "salt": STR},
+           # valid option set: digit strings up to 4294967295
+           requires=["all(IsNumeral(n) and int(n) <= 4294967295 for n in as_numbers)"],
+           modifies=["self"],
+           ghost_exit={"self.numbers": "as_numbers"},
+           ensures=["self.salt == salt", "AsOK(self)", "seq(self.numbers) == seq(as_numbers)"])
+
+R.contract(M + "AsNumberAnonymizer.anonymize",
+           types={"self": AS, "as_number": STR}, returns=STR, pure=True, reads=["self.as_num_map"],
+           raises={"KeyError": "as_number not in self.as_num_map"},
+           ensures=["result == self.as_num_map[as_number]"])
+
+R.contract(M + "anonymize_as_numbers", record=True,
+           types={"anonymizer": AS, "line": STR}, returns=STR,
+           requires=["AsOK(anonymizer)"],
+           ensures=["True"],
+           loops={"sub0": LoopContract([], invariant=["AsOK(anonymizer)"],
+                                       # ASSUMED: a match of the compiled template is one of the listed numbers (the
+                                       # regular-language obligations as_num_regex#* decide this for the template)
+                                       match_assume=["any(n == MATCH for n in anonymizer.numbers)"])})
